@@ -401,6 +401,11 @@ pub fn search_c11(seed: u64, ctx: &mut Ctx) -> Option<J> {
                 ];
                 for (k, h) in others.into_iter().enumerate() {
                     for swap in [false, true] {
+                        // the thread-spawning impls see the swapped pair only
+                        // for the "much larger operand" case (time budget)
+                        if swap && k != 2 && heavy(repr, "union") {
+                            continue;
+                        }
                         let (a, b) = if swap { (h.clone(), g.clone()) } else { (g.clone(), h.clone()) };
                         let mut c = unary(repr, "union", a);
                         c.h = Some(b);
